@@ -320,14 +320,7 @@ func c05SCIONWorld(r *simcore.Run) any {
 				return
 			}
 			attacked, curReq = false, nil
-			// Known finding F13: a request at pool level 1 does not fit and panics on the client's
-			// own measurement goroutine, which would take the worker process down; when the pool is
-			// about to get there, the exchange is left alone so that it succeeds and refills the pool.
 			calm = false
-			// (a measurement makes up to three attempts in interleaved mode, one cookie each)
-			if n := cl.Auth.NTSKEFetcher.VerifPoolLen(); useNTS && n > 0 && n <= 4 {
-				calm = true
-			}
 			ev0 := evaluated
 			ctx, cancel := simsync.WithTimeout(context.Background(), 300*time.Millisecond)
 			client.MeasureClockOffsetSCION(ctx, log, []*client.SCIONClient{cl}, laddr, raddr, []snet.Path{path})
